@@ -26,12 +26,47 @@ def _apply(sources, v):
     return {v["path"]: src.replace(v["old"], v["new"])}
 
 
+def _seed_overlay(repo, patch_path):
+    """Applies a stored seed to a temporary copy of <repo>/src and returns the changed files as an overlay."""
+    import shutil
+    import subprocess
+    import tempfile
+
+    tmp = tempfile.mkdtemp(prefix="verif_seed_")
+    try:
+        shutil.copytree(os.path.join(repo, "src"), os.path.join(tmp, "src"))
+        r = subprocess.run(["patch", "-p1", "-s", "--fuzz=3", "-i", patch_path], cwd=tmp, capture_output=True)
+        if r.returncode != 0:
+            return None
+        new = load_sources(tmp)
+        old = load_sources(repo)
+        return {k: v for k, v in new.items() if old.get(k) != v}
+    finally:
+        shutil.rmtree(tmp, ignore_errors=True)
+
+
+def seeded_variants(prop):
+    here = os.path.dirname(os.path.dirname(os.path.abspath(__file__)))
+    out = []
+    sd = os.path.join(here, "seeded")
+    if not os.path.isdir(sd):
+        return out
+    for name in sorted(os.listdir(sd)):
+        mp = os.path.join(sd, name, "meta.json")
+        if not os.path.exists(mp):
+            continue
+        meta = json.load(open(mp))
+        if prop in meta.get("detected_by", []):
+            out.append(dict(id="seed:" + name, props=[prop], kind="break", path="@seed", old=os.path.join(sd, name, "patch.diff"), new="", note=meta.get("what", "")))
+    return out
+
+
 def _run(args):
     prop, repo, v = args
     from sa.cli import run_property
 
     sources = load_sources(repo)
-    ov = _apply(sources, v)
+    ov = _seed_overlay(repo, v["old"]) if v["path"] == "@seed" else _apply(sources, v)
     if ov is None:
         return v["id"], "inapplicable", ""
     try:
@@ -65,7 +100,7 @@ def run_corpus(prop, repo, seed, write_evidence=True):
 
     t0 = time.time()
     rc = run_property(prop, repo, "thorough", seed, write_evidence=write_evidence)
-    mine = [v for v in V if prop in v["props"]]
+    mine = [v for v in V if prop in v["props"]] + seeded_variants(prop)
     order = list(mine)
     import random
 
